@@ -8,21 +8,22 @@ assert subprocess.run(['git','-C','/repo','status','--porcelain'],capture_output
 for f in sorted(glob.glob('seeded/*/meta.json')):
     m = json.load(open(f))
     sid, prop = m['id'], m['property']
+    chk = m.get('confirm_with', prop)  # a change caught by another property's check is confirmed with that one
     if only and sid not in only and prop not in only:
         continue
     patch = os.path.join('seeded', sid, 'patch.diff')
     r = subprocess.run(['git','-C','/repo','apply',os.path.abspath(patch)],capture_output=True,text=True)
     if r.returncode != 0:
         print(sid, "PATCH DOES NOT APPLY", r.stderr[:200]); continue
-    shutil.copy(f'evidence/{prop}.json', f'/tmp/ev-{prop}.bak')
+    shutil.copy(f'evidence/{chk}.json', f'/tmp/ev-{chk}.bak')
     try:
-        out = subprocess.run(['./check', prop, 'quick'], capture_output=True, text=True, timeout=3600)
+        out = subprocess.run(['./check', chk, 'quick'], capture_output=True, text=True, timeout=3600)
         keys = sorted(set(re.findall(r'key=(\S+)', out.stdout)))
-        m['confirmed_on_repo'] = {"how": "git -C /repo apply patch.diff; ./check %s quick; git -C /repo checkout -- ." % prop,
+        m['confirmed_on_repo'] = {"how": "git -C /repo apply patch.diff; ./check %s quick; git -C /repo checkout -- ." % chk,
                                   "exit_status": out.returncode, "violation_keys": keys[:12]}
         print(sid, "exit", out.returncode, len(keys), "keys", keys[:2])
     finally:
         subprocess.run(['git','-C','/repo','checkout','--','.'])
-        shutil.copy(f'/tmp/ev-{prop}.bak', f'evidence/{prop}.json')
+        shutil.copy(f'/tmp/ev-{chk}.bak', f'evidence/{chk}.json')
     json.dump(m, open(f,'w'), indent=1, ensure_ascii=False)
 print(subprocess.run(['git','-C','/repo','status','--porcelain'],capture_output=True,text=True).stdout or "repo clean")
